@@ -23,6 +23,9 @@ from .. import c03_formats as F
 ASAN = "detect_leaks=0:abort_on_error=0:exitcode=97:allocator_may_return_null=1:max_allocation_size_mb=1024"
 UBSAN = "print_stacktrace=1:halt_on_error=0:exitcode=98"
 ENV = {"ASAN_OPTIONS": ASAN, "UBSAN_OPTIONS": UBSAN}
+BIG_ALIM = 6 << 30
+ENV_BIG = {"ASAN_OPTIONS": ASAN.replace("max_allocation_size_mb=1024", "max_allocation_size_mb=6144"),
+           "UBSAN_OPTIONS": UBSAN}
 CC_FLAGS = ("-fsanitize-recover=alignment",)
 WORKERS = 8
 
@@ -90,7 +93,7 @@ def gen_rle_case(rng):
 # ----------------------------------------------------------------- file cases
 
 class FileCase:
-    __slots__ = ("seed", "opts", "specs", "what", "weight")
+    __slots__ = ("seed", "opts", "specs", "what", "weight", "big")
 
     def __init__(self, seed, opts, patches=(), trunc=None, what="seed", weight=0):
         self.seed = seed
@@ -107,6 +110,7 @@ class FileCase:
         self.specs = specs
         self.what = what
         self.weight = weight
+        self.big = False
 
     def line(self):
         return "F %s %s" % (self.opts, " ".join(self.specs))
@@ -122,10 +126,18 @@ def enumerate_cases(seeds, rng, quick):
         cases.append(FileCase(s, "m=0", what="%s: unmodified seed, read(2) only" % s.name))
         allp = []
         for f in s.fields:
-            for v in F.corrupt_values(f, s.data[f.fidx]):
+            copylen = bool(re.search(r"namesz|descsz|dp_size|\.size$|buf_size|size_note|size_vmcoreinfo|size_eraseinfo",
+                                     f.name))
+            wraps = "dense" if (not quick or copylen) else "sparse"
+            for v in F.corrupt_values(f, s.data[f.fidx], wraps):
                 allp.append((f, v))
-                singles.append(FileCase(s, "m=1", [(f.fidx, f.off, f.enc(v))],
-                                        what="%s: %s = 0x%x" % (s.name, f.name, v), weight=1))
+                c = FileCase(s, "m=1", [(f.fidx, f.off, f.enc(v))],
+                             what="%s: %s = 0x%x" % (s.name, f.name, v), weight=1)
+                # a length just below 2^32 only shows what it does if the allocation of that many
+                # bytes succeeds: such cases run a second time with a large allocation limit
+                if F.field_class(f) == "len" and (1 << 32) - 8192 <= v < (1 << 32) + 8192:
+                    c.big = True
+                singles.append(c)
         for fi, bs in enumerate(s.bounds):
             tl = set()
             for b in bs:
@@ -152,6 +164,23 @@ def enumerate_cases(seeds, rng, quick):
             doubles.append(FileCase(s, "m=1", [(f1.fidx, f1.off, f1.enc(v1))], trunc=(fi, tl),
                                     what="%s: %s = 0x%x and file %d truncated to %d bytes" % (s.name, f1.name, v1, fi, tl),
                                     weight=2))
+        # pre-open attribute history: values set on the fresh context before the open
+        pre = []
+        ps = 0x1000
+        for opt in ("a=arch.page_size:%x" % ps, "a=arch.page_size:%x" % (ps * 2), "a=arch.page_size:10000",
+                    "a=arch.page_shift:c", "a=arch.page_shift:10", "a=arch.byte_order:0", "a=arch.byte_order:1",
+                    "a=arch.ptr_size:4", "a=arch.ptr_size:8", "a=cache.size:1", "a=cache.size:0",
+                    "a=cache.size:3", "a=file.mmap_policy:0", "a=file.mmap_policy:2", "a=file.mmap_policy:3",
+                    "a=arch.page_size:%x,a=cache.size:2,a=arch.ptr_size:8" % ps,
+                    "a=arch.page_shift:c,a=arch.page_size:%x" % ps):
+            pre.append(FileCase(s, "m=1," + opt, what="%s: unmodified seed after %s" % (s.name, opt), weight=1))
+        for c in rng.sample(singles + truncs, min(len(singles + truncs), 24)):
+            opt = rng.choice(["a=arch.page_size:1000", "a=arch.page_size:2000", "a=arch.page_shift:c",
+                              "a=cache.size:1", "a=arch.ptr_size:4", "a=arch.byte_order:1"])
+            e = FileCase(c.seed, "m=1," + opt, what=c.what + " after " + opt, weight=c.weight)
+            e.specs = c.specs
+            pre.append(e)
+        cases += pre
         # the read(2)-only policy on a sample
         extra = []
         for c in rng.sample(singles + truncs, min(len(singles + truncs), max(10, len(singles) // 8))):
@@ -182,8 +211,9 @@ def signature(line):
     return "corrupt %s %s" % (stage, " ".join(parts))
 
 
-def run_parallel(run, exe, lines):
+def run_parallel(run, exe, lines, env=None, tag="w"):
     """Shard the case lines over WORKERS driver processes; keeps order."""
+    env = env or ENV
     n = len(lines)
     if n == 0:
         return [], {}
@@ -193,10 +223,10 @@ def run_parallel(run, exe, lines):
     crashes = {}
 
     def work(k):
-        wd = os.path.join(run.work, "w%d" % k)
+        wd = os.path.join(run.work, "%s%d" % (tag, k))
         os.makedirs(wd, exist_ok=True)
         idx = shards[k]
-        res, cr = core.run_impl_lines(exe, wd, [lines[i] for i in idx], pre_args=["-w", wd], env=ENV,
+        res, cr = core.run_impl_lines(exe, wd, [lines[i] for i in idx], pre_args=["-w", wd], env=env,
                                       timeout=3600)
         return k, res, cr
 
@@ -386,6 +416,16 @@ def check(run):
     sizes = ["S ps %x" % v for v in sorted(pvals)]
     if not quick:
         cases += havoc_cases(seeds, run.rng, 30000)
+    bigcases = []
+    bigpre = [l for l in pre if ",A=" in l.split(" ")[1]] if pre else []
+    pre = [l for l in pre if l not in bigpre]
+    for c in cases:
+        if c.big and c.opts == "m=1":
+            b = FileCase(c.seed, "m=1,A=%x" % BIG_ALIM, what=c.what + " [allocation limit 6 GiB]", weight=c.weight)
+            b.specs = c.specs
+            bigcases.append(b)
+    if quick and len(bigcases) > 800:
+        bigcases = run.rng.sample(bigcases, 800)
     lines = pre + rle + sizes + [c.line() for c in cases]
     whats = ["corpus"] * len(pre) + ["rle"] * len(rle) + ["page size"] * len(sizes) + [c.what for c in cases]
     run.cov["engines"]["corrupt"] = {"corpus_cases": len(pre), "rle_cases": len(rle), "file_cases": len(cases),
@@ -397,6 +437,16 @@ def check(run):
         fi = ex.submit(run_parallel, run, exe, lines)
         model = fm.result()
         impl, crashes = fi.result()
+    # second pass: near-2^32 lengths with an allocation limit above 4 GiB (model told the same limit)
+    if bigcases or bigpre:
+        blines = bigpre + [c.line() for c in bigcases]
+        bmodel = run_model_parallel(run, "corrupt", blines)
+        bimpl, _ = run_parallel(run, exe, blines, env=ENV_BIG, tag="b")
+        lines += blines
+        whats += ["corpus"] * len(bigpre) + [c.what for c in bigcases]
+        model += bmodel
+        impl += bimpl
+        run.cov["engines"]["corrupt"]["big_allocation_cases"] = len(blines)
     run.cov["phase_s"]["campaign"] = round(time.time() - t0, 1)
     t0 = time.time()
     judge(run, lines, whats, model, impl)
